@@ -842,9 +842,13 @@ func cmdRun(args []string) int {
 			"states_meaning":                "feasible paths explored to completion or to a violated assertion; transitions = symbolic branch decisions taken",
 		},
 	}
-	os.MkdirAll(filepath.Join(verifDir, "evidence"), 0o755)
+	evDir := filepath.Join(verifDir, "evidence")
+	if d := os.Getenv("VERIF_EVIDENCE_DIR"); d != "" {
+		evDir = d // mutation experiments must not overwrite the real evidence
+	}
+	os.MkdirAll(evDir, 0o755)
 	b, _ := json.MarshalIndent(evidence, "", " ")
-	if err := os.WriteFile(filepath.Join(verifDir, "evidence", id+".json"), b, 0o644); err != nil {
+	if err := os.WriteFile(filepath.Join(evDir, id+".json"), b, 0o644); err != nil {
 		fatal("%v", err)
 	}
 	fmt.Printf("[%s] tier=%s done in %.1fs: %d states, %d decisions, %d queries, %d validated witnesses, %d inconclusive, violations=%d\n",
@@ -908,6 +912,9 @@ type ReplayFile struct {
 
 func writeReplay(prop string, v interp.Violation, tier int) string {
 	dir := filepath.Join(verifDir, "replays", prop)
+	if d := os.Getenv("VERIF_REPLAY_DIR"); d != "" {
+		dir = filepath.Join(d, prop)
+	}
 	os.MkdirAll(dir, 0o755)
 	h := sha1.Sum([]byte(v.Harness + "|" + v.Label))
 	p := filepath.Join(dir, v.Harness+"-"+hex.EncodeToString(h[:4])+".json")
